@@ -77,8 +77,20 @@ def old_sets_unchanged(old, new, except_pred=None):
 
 
 # ---------------------------------------------------------------- acyclicity (DESIGN 5.2)
+_SS_CACHE = {}
+
+
 def self_supporting(st, S, U, wit=None):
     """U is a non-empty subset of J(S) in which every element requires an element of U"""
+    if wit is None:
+        key = (st.H('$elems').get_id(), st.H('jobs').get_id(), st.H('required').get_id(), S.get_id(), U.get_id())
+        if key not in _SS_CACHE:
+            _SS_CACHE[key] = _self_supporting(st, S, U, None)
+        return _SS_CACHE[key]
+    return _self_supporting(st, S, U, wit)
+
+
+def _self_supporting(st, S, U, wit=None):
     u, r = q(2)
     nonempty = Exists([u], Select(U, u))
     sub = ForAll([u], Implies(Select(U, u), member(st, S, u)), patterns=[Select(U, u)])
